@@ -28,6 +28,27 @@ def combJit (N k : Int) : Int :=
     else if N = intpMax then 0
     else combLoop (N + 1) nterms.toNat 1 1
 
+/-- two's-complement reduction of an integer to the `int64` range (what a machine
+    `intp` operation returns). Proof-side helper: not used by the driver. -/
+def wrap64 (x : Int) : Int := (x + 2 ^ 63) % 2 ^ 64 - 2 ^ 63
+
+/-- `combLoop` with every arithmetic result reduced to `int64` (the machine computation). -/
+def combLoopW (Mv : Int) : Nat → Nat → Int → Int
+  | 0, _, val => val
+  | rem + 1, j, val =>
+    if val > intpMax / wrap64 (Mv - (j : Int)) then 0
+    else combLoopW Mv rem (j + 1) (wrap64 (wrap64 (val * wrap64 (Mv - (j : Int))) / (j : Int)))
+
+/-- `combJit` with every arithmetic result reduced to `int64`. -/
+def combJitW (N k : Int) : Int :=
+  if N < 0 ∨ k < 0 ∨ k > N then 0
+  else
+    let nterms := min k (wrap64 (N - k))
+    if nterms = 0 then 1
+    else if nterms = 1 then N
+    else if N = intpMax then 0
+    else combLoopW (wrap64 (N + 1)) nterms.toNat 1 1
+
 /-- `scipy.special.comb(N, k, exact=True)` as used by the non-jitted twins. -/
 def chooseNat : Nat → Nat → Nat
   | _, 0 => 1
